@@ -1,5 +1,5 @@
 #!/bin/bash
-# Run once after a fresh restore, offline. Pre-builds the harness (release and +bmi2 passes, both used by the quick tier); every check
+# Run once after a fresh restore, offline. Pre-builds the harness (release, +bmi2 and debug passes: all three are used by the quick tier); every check
 # rebuilds whatever is stale anyway, so nothing here is needed for correctness.
 set -e
 cd "$(dirname "$0")"
@@ -10,7 +10,7 @@ spec = importlib.util.spec_from_loader("check", loader=None)
 src = open("check").read()
 mod = type(sys)("check"); mod.__file__ = "check"
 exec(compile(src.replace('if __name__ == "__main__":\n    main()', ''), "check", "exec"), mod.__dict__)
-for p in ("release", "bmi2"):
+for p in ("release", "bmi2", "debug"):
     mod.build_harness(p)
 PY
 # pre-build the ThreadSanitizer std (-Zbuild-std) and Miri sysroot used by C20 so that the first C20 check is not dominated by them
